@@ -37,6 +37,19 @@ def _apply_variant(root: Path, v) -> str | None:
         for p in (root / "src" / "lcm").rglob("*.py"):
             p.write_text(ast.unparse(ast.parse(p.read_text())) + "\n")
         return None
+    if v.get("kind") == "rename_locals":
+        for p in (root / "src" / "lcm").rglob("*.py"):
+            p.write_text(_rename_locals(p.read_text()) + "\n")
+        return None
+    if v.get("kind") == "strip_docs":
+        for p in (root / "src" / "lcm").rglob("*.py"):
+            tree = ast.parse(p.read_text())
+            for n in ast.walk(tree):
+                if isinstance(n, (ast.FunctionDef, ast.ClassDef, ast.Module)) and n.body and isinstance(n.body[0], ast.Expr) \
+                        and isinstance(n.body[0].value, ast.Constant) and isinstance(n.body[0].value.value, str):
+                    n.body = n.body[1:] or [ast.Pass()]
+            p.write_text(ast.unparse(tree) + "\n")
+        return None
     if v.get("kind") == "patch":
         import subprocess
 
@@ -61,6 +74,58 @@ def _apply_variant(root: Path, v) -> str | None:
             return f"variant does not parse: {e}"
         p.write_text(s)
     return None
+
+
+def _rename_locals(source: str) -> str:
+    """Rename every local variable (not parameters, not names shared with nested scopes in a
+    conflicting way) of every module-level function: x -> x_r.  Behaviour-preserving."""
+    tree = ast.parse(source)
+
+    class Renamer(ast.NodeTransformer):
+        def __init__(self, names, top):
+            self.names = names
+            self.top = top
+
+        def visit_Name(self, node):
+            if node.id in self.names:
+                node.id = node.id + "_r"
+            return node
+
+        def visit_FunctionDef(self, node):
+            if node.name in self.names and node is not self.top:
+                node.name = node.name + "_r"
+            self.generic_visit(node)
+            return node
+
+    def params_of(fn):
+        a = fn.args
+        out = {x.arg for x in a.posonlyargs + a.args + a.kwonlyargs}
+        if a.vararg:
+            out.add(a.vararg.arg)
+        if a.kwarg:
+            out.add(a.kwarg.arg)
+        return out
+
+    for fn in [n for n in tree.body if isinstance(n, ast.FunctionDef)]:
+        assigned = set()
+        nested_params = set()
+        has_global = False
+        for n in ast.walk(fn):
+            if isinstance(n, ast.Name) and isinstance(n.ctx, ast.Store):
+                assigned.add(n.id)
+            if isinstance(n, ast.FunctionDef) and n is not fn:
+                assigned.add(n.name)
+                nested_params |= params_of(n)
+            if isinstance(n, (ast.Global, ast.Nonlocal)):
+                has_global = True
+            if isinstance(n, (ast.ListComp, ast.SetComp, ast.DictComp, ast.GeneratorExp)):
+                pass
+        if has_global:
+            continue
+        names = assigned - params_of(fn) - nested_params
+        # keep keyword names of calls intact: keywords are not Name nodes, nothing to do
+        Renamer(names, fn).visit(fn)
+    return ast.unparse(tree)
 
 
 def _run_variant(args):
